@@ -247,11 +247,11 @@ fn cross(rng: &mut Rng, code: i64, be: i128) -> Rec {
 fn ggsw(rng: &mut Rng, code: i64, be: i128) -> Rec {
     let n = pick_n(rng);
     let b = pick_b(rng);
-    let rank = rng.range(0, 2) as usize;
+    let rank = rng.range(0, 3) as usize;
     let invalid = rng.below(12) == 0;
     let adnum = rng.range(1, 3) as usize;
     let rdnum = if invalid && rng.below(2) == 0 { adnum + 1 } else { rng.range(1, adnum as i64) as usize };
-    let arank = if invalid && rdnum <= adnum { (rank + 1) % 3 } else { rank };
+    let arank = if invalid && rdnum <= adnum { (rank + 1) % 4 } else { rank };
     let rsize = rdnum.max(2) + rng.below(3) as usize;
     let asize = adnum.max(2) + rng.below(3) as usize;
     let k = pick_k_rot(rng, n);
@@ -309,7 +309,7 @@ fn program(rng: &mut Rng, code: i64, be: i128) -> Rec {
 pub fn generate(tier: &str, seed: u64) -> Vec<Rec> {
     let mut rng = Rng::new(seed);
     let mut out = Vec::new();
-    let reps = if tier == "thorough" { 400 } else { 44 };
+    let reps = if tier == "thorough" { 900 } else { 170 };
     for it in 0..reps {
         for code in 2001..=2019i64 {
             let be = 1 + ((it + code as usize) % 4) as i128;
